@@ -323,6 +323,262 @@ def brief_a(ev):
 
 
 # ------------------------------------------------------------------------------------------------
+# C16
+
+def btext(ints):
+    return bytes(ints).decode("utf-8", "replace")
+
+
+def brief_run(r):
+    return {"input": btext(r["in"]), "capacity": r["cap"], "tokens": [[t["k"], btext(t["t"])] for t in r["toks"]][:12],
+            "closed": r["closed"], "timeout": r["timeout"]}
+
+
+def c16_class(cls, ev):
+    """Mechanical refinement of a rejected C16 event: names the deviation only if the input has the
+    stated shape AND the observed token stream is exactly the one that deviation produces."""
+    if ev["ev"] == "One" and cls == "printed-value-not-one-token":
+        inp, toks, kind = ev["in"], ev["toks"], ev["kind"]
+        one_error = len(toks) == 1 and toks[0]["k"] == "ERROR"
+        if kind in ("PREDICATE", "PREDICATE_BOUND", "LITERAL") and inp.count(34) == 2:
+            q2 = len(inp) - 1 - inp[::-1].index(34)  # closing quote
+            if q2 >= 1 and inp[q2 - 1] == 92 and one_error and toks[0]["t"] == inp:
+                return "backslash-before-closing-quote"
+            starts = any(inp[1:1 + len(d)] == list(d) for d in (b"@[", b"^^type:"))
+            if starts and one_error and toks[0]["t"] == inp[:q2 + 1]:
+                return "quoted-text-starts-with-delimiter"
+        if kind == "NODE" and 62 in inp[:inp.index(60)] if 60 in inp else False:
+            if one_error and toks[0]["t"] == inp[:inp.index(62) + 1]:
+                return "node-type-contains-gt"
+    if ev["ev"] == "Pair" and cls == "inserted-white-space-changes-tokens":
+        ka, kb = [t["k"] for t in ev["a"]["toks"]], [t["k"] for t in ev["b"]["toks"]]
+        if "FILTER_FUNCTION" in ka:
+            i = ka.index("FILTER_FUNCTION")
+            if ka[i + 1:i + 2] == ["LEFT_PARENT"] and kb == ka[:i] + ["ERROR"]:
+                return "white-space-before-filter-function-parenthesis"
+    return cls
+
+
+def lexdrv(args, d, tag, v):
+    """Runs lexdrv; a driver killed by the code under test (panic in the lexer goroutine) is turned into
+    a rejected case by re-running carefully to find the input."""
+    out, stats = os.path.join(d, tag + ".ndjson"), os.path.join(d, tag + ".stats")
+    cmd = [os.path.join(vlib.BUILD_DIR, "lexdrv")] + args + ["-out", out, "-stats", stats, "-seed", str(vlib.seed())]
+    p = vlib.run(cmd, timeout=3600, check=False)
+    if p.returncode == 0:
+        return out, json.load(open(stats))
+    if "panic" not in p.stderr and "fatal error" not in p.stderr:
+        raise Infra("lexdrv failed rc=%d: %s" % (p.returncode, p.stderr[-3000:]))
+    p2 = vlib.run(cmd + ["-careful"], timeout=7200, check=False)
+    cur = [ln for ln in p2.stderr.splitlines() if ln.startswith("CURRENT ")]
+    if p2.returncode == 0 or not cur:
+        raise Infra("lexdrv crashed (rc=%d) but the crash did not reproduce: %s" % (p.returncode, p.stderr[-2000:]))
+    w = {"input": json.loads(cur[-1][8:]), "stderr": p2.stderr[-1500:]}
+    v.reject("lexer-crash", w, w)
+    raise Infra("lexer crashed the driver on input %r; the case is recorded, the rest of this mode could not run" % w["input"])
+
+
+def check_c16(v, d):
+    tier = v.tier
+    quick = tier == "quick"
+    mc = vlib.run_tlc("LexerStream", "LexerStream.cfg", workers=2, timeout=600)
+    if mc.violation:
+        raise Infra("LexerStream.tla violates its own invariants: %s" % mc.violation)
+    g, gen = grammar_data(d)
+    sents, dinfo = corpus(gen, 20, 40, per_context=1 if quick else 4)
+    sp = os.path.join(d, "sentences.ndjson")
+    write_ndjson(sp, sents)
+    runs = [
+        ("exhaustive", ["exhaustive", "-maxlen", "4" if quick else "5"]),
+        ("values", ["values"]),
+        ("pairs", ["pairs", "-in", sp]),
+        ("random", ["random", "-in", sp, "-n", "4000" if quick else "60000"]),
+    ]
+    stats, states, events, opens, nrej, samples = {}, 0, 0, 0, 0, []
+    for tag, args in runs:
+        trace, st = lexdrv(args, d, tag, v)
+        stats.update(st)
+        res = validate("LexerTrace", {}, trace, per_chunk=50000)
+        states += res["states"]
+        events += res["events"]
+        opens += res["opens"]
+        for (ln, prop, cls, ev) in res["rejects"]:
+            nrej += 1
+            w = {"class": cls, "event": ev["ev"]}
+            if ev["ev"] == "Pair":
+                w.update({"variant": ev["var"], "a": brief_run(ev["a"]), "b": brief_run(ev["b"])})
+            else:
+                w.update(brief_run(ev))
+                if ev["ev"] == "One":
+                    w["expected_kind"] = ev["kind"]
+            v.reject(c16_class(cls, ev), w, {"trace_line": ln, "mode": tag, "event": ev})
+        with open(trace) as fh:
+            lines = fh.read().splitlines()
+        e = json.loads(lines[len(lines) // 2])
+        samples.append({"mode": tag, "a": brief_run(e["a"]), "b": brief_run(e["b"]), "variant": e["var"]} if e["ev"] == "Pair"
+                       else dict(brief_run(e), mode=tag))
+    if stats.get("lex:exhaustive", 0) == 0 or stats.get("pair:ws", 0) == 0:
+        raise Infra("vacuous run: %s" % stats)
+    v.cov.update({
+        "states": mc.distinct + states, "transitions": mc.generated + events, "traces_validated_against_impl": len(runs),
+        "model": "LexerStream.tla monitor exhaustively checked over a 2-byte alphabet (%d states); %d recorded runs validated" % (mc.distinct, events),
+        "events": stats, "open_cases_not_judged": opens, "rejected_events": nrej,
+        "exhaustive_alphabet": ["a", "\u00e9", "1", " ", "\"", "\\", "@", "[", "]", "<", "/", "?"],
+        "exhaustive_max_length": 4 if quick else 5, "capacities": [0, 1, 2, 8],
+        "samples": samples,
+    })
+    v.assumptions += [
+        "which substrings become tokens of which kind is deliberately not specified; only stream well-formedness and the relational facts (case, white space, printed values) are judged",
+        "printed values with embedded double quotes and pairs whose two texts both end in a lexer error are not judged (open)",
+        "white-space variants only change white space BETWEEN tokens (never inside a token such as 't1, t2' after BETWEEN); 'ws0'/'ws1' add white space where the base text has none",
+    ]
+    return v.finish()
+
+
+# ------------------------------------------------------------------------------------------------
+# C08
+
+def run_batches(d, cases_path, ncases, v, batch=400, workers=4):
+    """Executes cases [0, ncases) with rundrv in child processes. A child killed by the code under test
+    (panic in another goroutine, log.Fatalf, OOM) or stopped by the watchdog is an observation: the
+    killing case is re-run alone once, recorded as a Crash / Timeout event, and the batch goes on."""
+    drv = os.path.join(vlib.BUILD_DIR, "rundrv")
+    ranges = [(a, min(a + batch, ncases)) for a in range(0, ncases, batch)]
+
+    def child(a, b, out, careful=False):
+        cmd = [drv, "run", "-cases", cases_path, "-from", str(a), "-to", str(b), "-out", out] + (["-careful"] if careful else [])
+        return vlib.run(cmd, timeout=1800, check=False)
+
+    def one(idx):
+        a, b = ranges[idx]
+        lines, crashes = [], 0
+        while a < b:
+            out = os.path.join(d, "run-%d-%d.ndjson" % (idx, a))
+            p = child(a, b, out)
+            got = open(out).read().splitlines() if os.path.exists(out) else []
+            lines += got
+            if p.returncode == 0:
+                break
+            if p.returncode == 3:
+                raise Infra("rundrv failed: %s" % p.stderr[-2000:])
+            last = json.loads(got[-1])["i"] if got else a - 1
+            if p.returncode == 9:  # watchdog: the Timeout event is the last line; re-run it alone before it counts
+                out2 = os.path.join(d, "rerun-%d.ndjson" % last)
+                p2 = child(last, last + 1, out2)
+                if p2.returncode != 9:
+                    lines[-1:] = open(out2).read().splitlines()
+                a = last + 1
+                continue
+            killer = last + 1
+            crashes += 1
+            if crashes > 50:
+                raise Infra("more than 50 process crashes in one batch")
+            out2 = os.path.join(d, "rerun-%d.ndjson" % killer)
+            p2 = child(killer, killer + 1, out2, careful=True)
+            if p2.returncode in (0, 9):
+                raise Infra("rundrv died (rc=%d) after case %d but case %d alone does not kill it: %s" % (
+                    p.returncode, last, killer, p.stderr[-1500:]))
+            case = json.loads(open(cases_path).read().splitlines()[killer])
+            err = p2.stderr
+            m = re.search(r"^(panic: .*|fatal error: .*|.*\[FATAL\].*|\d{4}/\d\d/\d\d .*)$", err, re.M)
+            site = ""
+            for ln in err.splitlines():
+                if ln.startswith("github.com/google/badwolf/"):
+                    site = ln[len("github.com/google/badwolf/"):].rsplit("(", 1)[0]
+                    break
+            lines.append(json.dumps({"ev": "Crash", "i": killer, "src": case["src"], "store": case["store"], "text": case["text"],
+                                     "rc": p2.returncode, "msg": (m.group(1) if m else err[-300:])[:300], "site": site,
+                                     "outcome": "Crash", "kinds": [], "end": "", "ntok": 0, "stage": "?", "g_before": 0,
+                                     "g_after": 0, "lex_only": False, "leaks": []}))
+            a = killer + 1
+        return lines
+
+    with cf.ThreadPoolExecutor(max_workers=workers) as ex:
+        parts = list(ex.map(one, range(len(ranges))))
+    trace = os.path.join(d, "run.ndjson")
+    with open(trace, "w") as fh:
+        for part in parts:
+            for ln in part:
+                fh.write(ln + "\n")
+    return trace
+
+
+def brief_r(ev):
+    w = {k: ev[k] for k in ("src", "store", "text", "stage", "outcome") if k in ev}
+    for k in ("err", "panic", "site", "msg", "leaks", "rc"):
+        if ev.get(k):
+            w[k] = ev[k] if not isinstance(ev[k], str) else ev[k][:200]
+    if ev.get("g_after") != ev.get("g_before"):
+        w["goroutines"] = [ev.get("g_before"), ev.get("g_after")]
+    w["tokens"] = ev.get("ntok")
+    return w
+
+
+def c08_class(cls, ev):
+    """Mechanical refinement: panic / crash classes name the first engine function on the dying stack and
+    are attributed to a known finding only if the text has the shape that finding names."""
+    if cls in ("panic", "process-killed"):
+        site = ev.get("site", "")
+        if site == "triple/literal.(*unboundBuilder).Parse" and re.search(r'"[^"]?"\^\^type:blob', ev["text"], re.I) \
+                and "slice bounds out of range" in (ev.get("panic") or ev.get("msg") or ""):
+            return "panic:blob-literal-shorter-than-its-brackets"
+        return "%s:%s" % (cls, site or "?")
+    return cls
+
+
+def check_c08(v, d):
+    tier = v.tier
+    quick = tier == "quick"
+    g, gen = grammar_data(d)
+    sents, dinfo = corpus(gen, 20, 40, per_context=1 if quick else 0)
+    sp = os.path.join(d, "sentences.ndjson")
+    write_ndjson(sp, sents)
+    cases = os.path.join(d, "cases.ndjson")
+    args = ["cases", "-in", sp, "-out", cases, "-seed", str(vlib.seed())]
+    args += (["-enum", "3", "-enum-keep", "0.02", "-mutations", "2", "-variants", "2", "-random", "3000"] if quick
+             else ["-enum", "3", "-enum-keep", "1", "-mutations", "4", "-variants", "4", "-random", "60000"])
+    p = vlib.run([os.path.join(vlib.BUILD_DIR, "rundrv")] + args, timeout=1800, check=False)
+    if p.returncode != 0:
+        raise Infra("rundrv cases failed: %s" % p.stderr[-2000:])
+    ncases = int(p.stdout.strip().splitlines()[-1])
+    trace = run_batches(d, cases, ncases, v, batch=400 if quick else 1000, workers=4 if quick else 10)
+    res = validate("RunTrace", gen, trace, per_chunk=15000)
+    evs = vlib.read_ndjson(trace)
+    if len(evs) != ncases:
+        raise Infra("%d events for %d cases" % (len(evs), ncases))
+    by = {}
+    for e in evs:
+        k = "%s/%s" % (e["outcome"], e["stage"])
+        by[k] = by.get(k, 0) + 1
+    if by.get("Table/done", 0) == 0 or sum(n for k, n in by.items() if k.startswith("Error/execute")) == 0:
+        raise Infra("vacuous run: no statement was executed (%s)" % by)
+    for (ln, prop, cls, ev) in res["rejects"]:
+        v.reject(c08_class(cls, ev), brief_r(ev), {"trace_line": ln, "event": ev})
+    drift = len(vlib.parse_printed(res["printed"], "DRIFT"))
+    srcs = {}
+    for e in evs:
+        srcs[e["src"]] = srcs.get(e["src"], 0) + 1
+    picks = [evs[0], evs[len(evs) // 2]] + [e for e in evs if e["outcome"] == "Table" and e.get("rows", 0) > 0][:1] \
+        + [e for e in evs if e["src"] == "random"][:1]
+    v.cov.update({
+        "states": dinfo["distinct_states"] + res["states"], "transitions": dinfo["edges"] + res["events"],
+        "traces_validated_against_impl": 1,
+        "derivation_machine": dinfo, "runs": ncases, "runs_by_source": srcs, "runs_by_outcome_and_stage": by,
+        "stores": ["populated (3 graphs, 8 near-miss triples in 2 of them)", "empty"],
+        "rejected_events": len(res["rejects"]), "layer_b_drift_leak_predicted_not_observed": drift,
+        "evaluations": ncases, "distinct_nontrivial": len(set(e["text"] for e in evs if e["stage"] != "parse")),
+        "rule": "grammar-generated statements (TLC derivation machine, both alternative orders) with plain and hostile texts, their prefixes, prefix + one token, token mutations, statement + trailing statement, all token-kind sequences up to length 3 (quick: seeded 2% of length 3), seeded random bytes / fragments / byte mutations; non-trivial = distinct texts that passed the parser and reached planning or execution",
+        "samples": [brief_r(e) for e in picks],
+    })
+    v.assumptions += [
+        "goroutines are counted by stack dumps filtered to frames inside github.com/google/badwolf/, after settling (blocked in three samples over >= 30 ms, or a lexer blocked on its channel with no other engine goroutine)",
+        "watchdog 10 s per run, re-run alone once before a Timeout counts; a child process killed by the engine is re-run alone with the case announced on stderr",
+        "memory stores only (storage/memory); driver failures are C20",
+    ]
+    return v.finish()
+
+
+# ------------------------------------------------------------------------------------------------
 
 LEVEL = {"C17": "model_checking", "C18": "model_checking", "C16": "model_checking", "C08": "model_checking"}
 
@@ -337,4 +593,10 @@ def check(prop):
     if prop == "C18":
         vlib.build_harness(["grammardump", "parsedrv"])
         return check_c18(v, d)
+    if prop == "C16":
+        vlib.build_harness(["grammardump", "lexdrv"])
+        return check_c16(v, d)
+    if prop == "C08":
+        vlib.build_harness(["grammardump", "rundrv"])
+        return check_c08(v, d)
     raise Infra("property %s not implemented in fam_grammar" % prop)
